@@ -282,13 +282,17 @@ func (pc *ProviderCache) Refresh(ctx context.Context) error {
 	pc.seq++
 	seq := pc.seq
 
+	var canceled bool
 	for _, src := range pc.sources {
 		// Get provider info from each source.
 		fetchedInfos, err := src.FetchAll(ctx)
 		if err != nil {
 			log.Errorw("cannot fetch provider info", "err", err, "source", src)
 			if ctx.Err() != nil {
-				return ctx.Err()
+				// Stop fetching, but still publish what was fetched so far,
+				// so that it is not lost to the next refresh.
+				canceled = true
+				break
 			}
 			continue
 		}
@@ -338,6 +342,10 @@ func (pc *ProviderCache) Refresh(ctx context.Context) error {
 
 	for pid, cinfo := range pc.write {
 		if cinfo.seq != seq {
+			if canceled {
+				// Not all sources were asked; provider may still be present.
+				continue
+			}
 			// Provider no longer present.
 			now := time.Now()
 			if cinfo.expiresAt.IsZero() {
@@ -358,9 +366,12 @@ func (pc *ProviderCache) Refresh(ctx context.Context) error {
 
 	// If the update map is small relative to the main map, do not generate a
 	// new main map yet.
-	pc.refreshIncomplete = false
+	pc.refreshIncomplete = canceled
 	if !needMerge(len(updates), len(read.m)) {
 		pc.read.Store(&readOnly{m: read.m, u: updates})
+		if canceled {
+			return ctx.Err()
+		}
 		return nil
 	}
 
@@ -376,6 +387,9 @@ func (pc *ProviderCache) Refresh(ctx context.Context) error {
 
 	// Replace old readOnly map with new.
 	pc.read.Store(&readOnly{m: m})
+	if canceled {
+		return ctx.Err()
+	}
 	return nil
 }
 
